@@ -83,7 +83,10 @@ def run(ctx):
         out2 = os.path.join(ctx.scratch, "c06_e2e_out.json")
         rc, txt = ctx.run_bin(binary, "^TestVerifC06E2E$", env={"VERIF_CASES": p2, "VERIF_OUT": out2}, timeout=3000)
         if rc != 0 or not os.path.exists(out2):
-            raise vlib.Infra("C06 end-to-end harness failed rc=%s:\n%s" % (rc, txt[-3000:]))
+            i = txt.find("panic:")
+            j = txt.find("fatal error:")
+            k = min([x for x in (i, j) if x >= 0] or [max(0, len(txt) - 3000)])
+            raise vlib.Infra("C06 end-to-end harness failed rc=%s:\n%s" % (rc, txt[k:k + 4000]))
         r2 = json.load(open(out2))
         if r2["executed"] != len(pool):
             raise vlib.Infra("end-to-end harness executed %d of %d cases" % (r2["executed"], len(pool)))
